@@ -146,10 +146,15 @@ def specs(tier: str):
         add("sc_results", 0, kinds=(kind,), hasprimary=False, backend="thread", waiter=(kind == "value"))
     add("sc_results", 0, kinds=("value",), hasprimary=True, backend="thread", waiter=False)
     add("sc_results", 0, kinds=("raise",), hasprimary=True, backend="main_thread_only", waiter=False)
-    add("sc_two_spawners", 0, hasprimary=True, backend="thread")
-    out[-1]["sync_granularity"] = not thorough
+    add("sc_one_user", 0, hasprimary=True, backend="thread", waitall_first=True)
     if thorough:
+        add("sc_one_user", 0, hasprimary=True, backend="thread", waitall_first=False)
+        add("sc_one_user", 0, hasprimary=False, backend="thread", waitall_first=True)
+        add("sc_one_user", 0, hasprimary=True, backend="main_thread_only", waitall_first=True)
+        add("sc_two_spawners", 0, hasprimary=True, backend="thread")
         add("sc_two_spawners", 0, hasprimary=False, backend="thread")
+        for sp in out[-5:]:
+            sp["timeout"] = 7200
         for hp in (True, False):
             for be in ("thread", "main_thread_only"):
                 add("sc_shutdown_race", 0, hasprimary=hp, backend=be, ntasks=2)
@@ -176,7 +181,7 @@ def run(tier: str) -> Outcome:
             "a finite timeout fires only in states where no thread can take a non-timeout step",
             "tracing calls are no-ops",
         ],
-        bounds=("scenarios: spawn racing trigger_shutdown+waitall(None) with 1 task (thorough 2), two concurrent spawners + waitall + terminate (quick: context switches at synchronisation operations), spawn after shutdown, Reply.get of a returning / "
+        bounds=("scenarios: spawn racing trigger_shutdown+waitall(None) with 1 task (thorough 2), one user thread doing spawn, spawn, waitall, terminate (thorough: also terminate directly, without primary, main_thread_only; two concurrent spawner threads + terminate), spawn after shutdown, Reply.get of a returning / "
                 "raising / blocked-then-released task (get with timeout first) with a concurrent waitall caller, with primary thread + terminate (thorough: two tasks); pools with and without integrated primary "
                 "thread, backends thread and main_thread_only (spawner gated as in the statement); unbounded preemptions; depth K per scenario with a "
                 "passing unwinding assertion (no thread can move at depth K)"),
